@@ -37,6 +37,34 @@ def dims(init):
     return N, F
 
 
+def spec_init(trace):
+    """The implementation's init snapshot with the parameters the user *declared* put in place of the
+    ones the constructor derived (inventory durations in steps, restoration rates, psi): the property
+    statements are read against the declaration, the derivation itself is checked by init.*"""
+    init = trace["init"]
+    try:
+        from harness.initcases import config_from_scenario
+        c = config_from_scenario(trace["scenario"], init)
+        if len(c["inv"]) != init["nS"] or len(c["rest"]) != init["nS"]:
+            return init
+        invd = []
+        for v in c["inv"]:
+            if v is None:
+                invd.append(np.inf)
+            else:
+                d = v / c["dt"]
+                invd.append(2.0 if d <= 1 else d)
+        rho = [c["dt"] / r for r in c["rest"]] if c["psi_class"] else [1.0] * init["nS"]
+        out = dict(init)
+        out["inv_duration"] = np.array(invd, dtype=float)
+        out["rho"] = np.array(rho, dtype=float)
+        if c["psi_class"]:
+            out["psi"] = c["psi"]
+        return out
+    except Exception:  # noqa: BLE001
+        return init
+
+
 def true_total(pre):
     """Total demand addressed to each industry: the row sums of the demand matrix itself (the
     implementation's cached total is checked against it by dtot.coherent, not trusted here)."""
@@ -52,6 +80,7 @@ def mon_c03(trace):
     init = trace["init"]
     if init is None:
         return out
+    init = spec_init(trace)
     N, F = dims(init)
     inf_rows = np.isinf(init["inv_duration"])
     for st in trace["steps"]:
@@ -220,6 +249,7 @@ def mon_c06(trace):
     init = trace["init"]
     if init is None:
         return out
+    init = spec_init(trace)
     N, F = dims(init)
     nS, nR = init["nS"], init["nR"]
     Z0 = init["Z0"]
